@@ -12,6 +12,6 @@ CONSTANTS
   MaxRequery = 1
   FixCommitState = TRUE
   SeqSMP = FALSE
-  FixSMPReset = FALSE
+  FixSMPReset = TRUE
 INVARIANTS RequeryLosesNothing
 CHECK_DEADLOCK FALSE
